@@ -38,9 +38,38 @@ def main(argv=None):
         from . import driver
         driver.REPO = args.repo
         mod = importlib.import_module("sa.props." + pid.lower())
-        S = driver.Session(args.repo)
-        mod.run(S, tier, rep)
-        rep.note("files_read", sorted(S.I.files_read))
+        from .regions import run_under_size_cases
+        from .props.simtools import tag_case
+        files = set()
+
+        def one(case):
+            S = driver.Session(args.repo)
+            r = Report(pid, LEVELS.get(pid, "other"), tier, seed)
+            r.assumptions = list(rep.assumptions)
+            mod.run(S, tier, r)
+            files.update(S.I.files_read)
+            return r
+        done = run_under_size_cases(one, getattr(mod, "CASE_SPLIT", False))
+        for case, r in done:
+            tag_case(r.obligations, case)
+            rep.obligations.extend(r.obligations)
+            rep.samples.extend(s for s in r.samples if len(rep.samples) < 12)
+            for k, v in r.analysed.items():
+                if k == "size_cases":
+                    rep.analysed.setdefault(k, [])
+                    rep.analysed[k] += [c for c in v if c not in rep.analysed[k]]
+                else:
+                    rep.analysed.setdefault(k, v)
+            for k, v in r.min_counts.items():
+                rep.min_counts[k] = v
+            for a in ("rule_text", "explanation", "trusted_base"):
+                if getattr(r, a, None):
+                    setattr(rep, a, getattr(r, a))
+            rep.assumptions = r.assumptions
+        if len(done) > 1:
+            rep.analysed.setdefault("size_cases", [])
+            rep.analysed["size_cases"] += [c.label() for c, _ in done if c.label() and c.label() not in rep.analysed["size_cases"]]
+        rep.note("files_read", sorted(files))
         from .regions import Threshold
         rep.note("grid_size_threshold", str(Threshold.value))
         return rep.finish()
